@@ -1,12 +1,17 @@
 import Driver.CifArg
 import CifModel.Model.Parser
+import CifModel.Model.ParserTrace
 import CifModel.Model.Fill
 /-
   family `parse` (C03; also the request language of `parsedoc` (C01) and `defect` (C12)):
 
     parse <dia 1|2> <max_frame_depth> <line_folding_modifier> <text_prefixing_modifier> <extra_ws hex|-> <extra_eol hex|->
           <not_utf8 0|1> <policy> <target n|e|p> <hex document> [pre <cif tokens …>] [| annotation …]
-      ↦ ps rc=<return value> n=<callback invocations> log=<code>:<line>,…|- cif=<canonical dump>|~
+      ↦ ps rc=<return value> n=<callback invocations> log=<code>:<line>,…|- ops=<b>,<f>,<s>,<l>,<p>,<r> cif=<canonical dump>|~
+
+  `ops` = the numbers of successful store calls the instrumented parser (Model/ParserTrace.lean) records: blocks created, save
+  frames created, cif_container_set_value, cif_container_create_loop, cif_loop_add_packet, cif_container_prune — the executor
+  counts the same calls of the real parser.
 
   (formats: harness/x_parse.c).  The units the scanner sees are those of the one-fill case of Model/Fill.lean
   (get_first_char, then one get_more_chars that reads everything).  Extra whitespace / end-of-line characters of the option
@@ -77,8 +82,11 @@ def answer (args : List String) : Option String :=
                       notUtf8 := nutf', store := store, norm := lowerAscii, normKey := id }
     let units := substExtra ws eol (seenUnits raw)
     let out := parse o policy initial units
+    let tr := storeTrace o policy initial units
+    let cnt (p : SOp → Bool) : Nat := (tr.filter p).length
+    let ops := s!"{cnt (fun | .mkBlock .. => true | _ => false)},{cnt (fun | .mkFrame .. => true | _ => false)},{cnt (fun | .setVal .. => true | _ => false)},{cnt (fun | .mkLoop .. => true | _ => false)},{cnt (fun | .addPkt .. => true | _ => false)},{cnt (fun | .prune .. => true | _ => false)}"
     let dump := if store then (let t := CifArg.showCanonCif out.cif; if t.isEmpty then " -" else t) else "~"
-    pure s!"ps rc={out.rc} n={out.log.length} log={joinOrDash (out.log.map fun r => s!"{r.code}:{r.line}")} cif={dump}"
+    pure s!"ps rc={out.rc} n={out.log.length} log={joinOrDash (out.log.map fun r => s!"{r.code}:{r.line}")} ops={ops} cif={dump}"
   | _ => none
 
 def handle : Handler := answer
